@@ -22,6 +22,10 @@ MAX_STEPS = 400000
 WIDEN_AFTER = 3
 
 
+class Pruned(Exception):
+    """the current path is outside the documented contract of an unsafe entry point"""
+
+
 class Violation:
     def __init__(self, rule, status, root, chain, prim, what, span, config):
         self.unwinding = False
@@ -538,6 +542,11 @@ class Interp:
         if k == 'len':
             if v[0] != 'int':
                 raise Unproven('non-integer stored to len')
+            if self.contract == 'no-append':
+                # documented precondition of the unsafe entry point (full map => key present):
+                # a path that changes len is outside the contract
+                self.stats['contract_pruned'] += 1
+                raise Pruned()
             st.log('len', ptr[1], v[1])
             return slots.set_len(st, ptr[1], v[1])
         if k == 'pair':
@@ -597,12 +606,6 @@ class Interp:
         ms = st.maps[mid]
         z = st.zone
         ok = z.entails_lt(idx, ms.cap)
-        if not ok and self.contract == 'append-bound' and z.entails_le(idx, ms.len):
-            # documented precondition of the unsafe entry point: the append slot is in bounds
-            self.stats['contract_assumptions'] += 1
-            z.add_lt(idx, ms.cap)
-            st.log('contract', 'append-bound', mid, idx)
-            return True
         self.oblig('O1', ok, prim,
                    'unchecked index %s is not proved < N (%s); known: %s' % (idx, ms.cap, self.facts_about(st, [idx, ms.len, ms.cap])),
                    'unproven', sample='%s < %s' % (idx, ms.cap))
